@@ -32,7 +32,8 @@ META = {
         "same-list re-insertion into ir.modules is judged by the weak "
         "contract: no exception the built-in would not raise, elements = "
         "built-in result de-duplicated, untouched elements keep their "
-        "relative order, world check passes",
+        "relative order, world check passes; the same holds for a value given "
+        "twice in one call",
         "set.pop / dict.popitem may return any present element; binary set "
         "operands are plain sets; mapping keys are non-negative ints",
     ],
